@@ -254,7 +254,10 @@ def raise (st : St) : St × Nat :=
     | Caught.to pc s ts => ({ st with stack := s, tries := ts }, pc)
 
 /-- callFramePop after a void Return: values above the frame are discarded, the frame is popped
-    and the try stack is cut back to the depth recorded in the frame -/
+    and the try stack is cut back to the depth recorded in the frame. The output-capture stack is cut
+    back to the frame's outputDepth in the same place (fixes/C13-4.patch), so an `@capture` block left
+    through `return` is closed with the frame: a body, taken big-step, never changes
+    `outStack` / `capturing` (Props: C13_capture_return_old_counterexample for the code before the fix). -/
 def popFrame : List Val → List Nat → Option (List Val × List Nat)
   | [], _ => none
   | Val.frame d :: s, ts => some (s, if ts.length > d then truncate ts d else ts)
